@@ -150,8 +150,8 @@ def gen_feed(rng, case, frac_reporting=None, threshold=100, special=True, n_unex
     if special:
         pool = idx[:]
         rng.shuffle(pool)
-        for kind in ["zero_baseline", "tf_low", "tf_high", "tf_eq_low", "tf_eq_high", "at_thr", "below_thr", "zero_baseline_partial"]:
-            if pool and rng.random() < 0.6:
+        for kind in ["zero_baseline", "tf_low", "tf_high", "tf_eq_low", "tf_eq_high", "at_thr", "below_thr", "zero_baseline_partial", "zero_dem_baseline"]:
+            if pool and rng.random() < (0.3 if kind == "zero_dem_baseline" else 0.6):
                 i = pool.pop()
                 roles[i] = kind
                 specials.append(kind)
@@ -195,6 +195,12 @@ def gen_feed(rng, case, frac_reporting=None, threshold=100, special=True, n_unex
             }
             r["results_turnout"] = r["results_dem"] + r["results_gop"] + rng.randint(0, 3)
             feed.append(r)
+            notes[uid] = role
+        elif role == "zero_dem_baseline":
+            # no votes for one party last time, but a normal turnout: zero baseline for ONE estimand only
+            b["baseline_gop"] = b["baseline_gop"] + b["baseline_dem"]
+            b["baseline_dem"] = 0
+            feed.append(live_row(rng, b, rng.choice([100, 100, 40]), swing))
             notes[uid] = role
         elif role in ("tf_low", "tf_high"):
             tf = rng.uniform(0.1, 0.45) if role == "tf_low" else rng.uniform(2.1, 3.0)
@@ -304,10 +310,16 @@ def gen_params(rng, case, pi_method=None, estimands=None):
         mp["lambda_"] = rng.choice([0.1, 1.0])
     if pi_method == "bootstrap" and rng.random() < 0.2:
         mp["lambda_"] = rng.choice([0.0, 1.0, 10.0])
+    if pi_method == "bootstrap" and rng.random() < 0.15:
+        mp["national_summary_correlation"] = False
+    if pi_method == "bootstrap" and rng.random() < 0.1:
+        mp["agg_model_hard_threshold"] = False
+        mp["T"] = rng.choice([25, 5000])
     fes = {}
     if rng.random() < 0.35 and pi_method != "bootstrap":
-        fes = rng.choice([{"postal_code": "all"}, {"county_classification": "all"}, ["county_classification"]])
-    alphas = rng.choice([[0.7], [0.9], [0.7, 0.9], [0.5, 0.8], [0.6, 0.8, 0.9]])
+        fes = rng.choice([{"postal_code": "all"}, {"county_classification": "all"}, ["county_classification"],
+                          {"county_classification": CLASSES[:2]}, {"county_classification": [CLASSES[-1]]}])    # selected levels: the rest is pooled into 'other'
+    alphas = rng.choice([[0.7], [0.9], [0.7, 0.9], [0.5, 0.8], [0.6, 0.8, 0.9], [0.1, 0.3, 0.9], [0.3], [0.9, 0.5], [0.99]])
     params = {
         "estimands": estimands,
         "prediction_intervals": alphas,
